@@ -14,7 +14,8 @@ def do_uninstall(log: str) -> None:
     for line in open(log, encoding='utf-8'):
         if line.startswith('#'):
             continue
-        fname = line.strip()
+        # Only the line terminator is not part of the name
+        fname = line[:-1] if line.endswith('\n') else line
         try:
             if os.path.isdir(fname) and not os.path.islink(fname):
                 os.rmdir(fname)
